@@ -657,7 +657,7 @@ void wantImports(GenOptions &g) { g.imports = true; }
 void wantResets(GenOptions &g) { g.resets = true; g.maxVarsPerComponent = 4; g.maxComponents = 4; }
 void wantConns(GenOptions &g) { g.connections = true; g.maxComponents = 7; }
 void wantUnits(GenOptions &g) { g.maxUnits = 7; }
-void wantMath(GenOptions &g) { g.mathProbability = 0.7; g.resets = true; g.maxComponents = 2; g.maxVarsPerComponent = 3; }
+void wantMath(GenOptions &g) { g.mathProbability = 0.7; g.resets = true; g.maxComponents = 3; g.maxVarsPerComponent = 3; }
 
 // ---------------------------------------------------------------- catalogue: structure (non-math) faults
 void addIdentifierFaults(std::vector<Fault> &cat)
@@ -942,6 +942,26 @@ void addUniquenessFaults(std::vector<Fault> &cat)
                     b.ref(f) = "c04_dupid";
                 }));
             }
+        }
+        // mapping id when variable-name + component-name of both ends concatenate to the same string
+        for (size_t cni = 0; cni < m.conns.size(); ++cni) {
+            const auto &cn = m.conns[cni];
+            if (m.comps[static_cast<size_t>(cn.c1)].import >= 0 || m.comps[static_cast<size_t>(cn.c2)].import >= 0 || cn.maps.empty()) {
+                continue;
+            }
+            int c1 = cn.c1;
+            int c2 = cn.c2;
+            std::string v1 = cn.maps[0].v1;
+            std::string v2 = cn.maps[0].v2;
+            out.push_back(irLoc("component+map_variables/name-concatenation-collision", "variables/components of one map renamed to c04_ab@c_c04 and c04_a@bc_c04; id of the map and of component c_c04 := 'c04_dupid'", [=](IrModel &f) {
+                renameVar(f, c1, v1, "c04_ab");
+                renameVar(f, c2, v2, "c04_a");
+                f.comps[static_cast<size_t>(c1)].name = "c_c04";
+                f.comps[static_cast<size_t>(c2)].name = "bc_c04";
+                f.conns[cni].maps[0].id = "c04_dupid";
+                f.comps[static_cast<size_t>(c1)].id = "c04_dupid";
+            }));
+            break;
         }
         // an id on a MathML element equal to the id of another item
         auto sites = collectSites(m);
@@ -1234,6 +1254,43 @@ void addEquivalenceFaults(std::vector<Fault> &cat)
                     mp.v2 = "c04_ub";
                     cn.maps.push_back(mp);
                     f.conns.push_back(cn);
+                }));
+                // fresh variables that already need public_and_private through valid maps listed BEFORE the unreachable one
+                out.push_back(irLoc("fresh-variables-needing-public_and_private/" + rel, "new variables in components #" + std::to_string(a) + " and #" + std::to_string(b) + ", each first mapped to a new child and to its parent / a sibling, then to each other", [=](IrModel &f) {
+                    auto connect = [&](int c1, const std::string &v1, int c2, const std::string &v2) {
+                        IrConnection cn;
+                        cn.c1 = c1;
+                        cn.c2 = c2;
+                        IrMap mp;
+                        mp.v1 = v1;
+                        mp.v2 = v2;
+                        cn.maps.push_back(mp);
+                        f.conns.push_back(cn);
+                    };
+                    auto sides = [&](int c, const std::string &vn, const std::string &tag) {
+                        f.comps[static_cast<size_t>(c)].vars.push_back(mkVar(vn, "dimensionless", "public_and_private"));
+                        IrComponent k;
+                        k.name = "c04_child_" + tag;
+                        k.parent = c;
+                        k.vars.push_back(mkVar("kv", "dimensionless", "public"));
+                        int ki = insertComp(f, f.comps.size(), k, false);
+                        connect(c, vn, ki, "kv");
+                        int p = f.comps[static_cast<size_t>(c)].parent;
+                        if (p >= 0 && f.comps[static_cast<size_t>(p)].import < 0) {
+                            f.comps[static_cast<size_t>(p)].vars.push_back(mkVar("c04_pv_" + tag, "dimensionless", "private"));
+                            connect(p, "c04_pv_" + tag, c, vn);
+                        } else {
+                            IrComponent sb;
+                            sb.name = "c04_sibling_" + tag;
+                            sb.parent = p;
+                            sb.vars.push_back(mkVar("sv", "dimensionless", "public"));
+                            int si = insertComp(f, f.comps.size(), sb, false);
+                            connect(si, "sv", c, vn);
+                        }
+                    };
+                    sides(a, "c04_ua", "a");
+                    sides(b, "c04_ub", "b");
+                    connect(a, "c04_ua", b, "c04_ub");
                 }));
                 // existing variables with literally the same units
                 for (const auto &va : m.comps[static_cast<size_t>(a)].vars) {
@@ -1751,7 +1808,7 @@ void addMathSpecialFaults(std::vector<Fault> &cat)
     f.name = "math:ci-variable-of-other-component";
     f.adm = {Rule::MATH_CI_VARIABLE_REFERENCE};
     f.math = true;
-    f.tune = [](GenOptions &g) { wantMath(g); g.maxComponents = 7; };
+    f.tune = [](GenOptions &g) { wantMath(g); g.maxComponents = 4; };
     f.locs = [](const IrModel &m, Rng &rng) {
         std::vector<Loc> out;
         for (const auto &s : collectSites(m)) {
